@@ -7,7 +7,7 @@ import ast
 from ..cfg import build_cfg, calls_in, node_calls
 from ..core import Ctx, property_info, rule, share
 from ..model import AnalysisError, FuncInfo, anon_text, walk_no_nested
-from ..q import Dispatch, L, call_name_of, control_deps, entry_conditions, leaves_at, raw_forms, expand_at, flow_conditions, flows, forms, return_values, str_template, template_text, tests_like, A, MUTATORS, asrc, enum_members, is_self_attr, kwarg, root_name, stores, unparse
+from ..q import Dispatch, L, call_name_of, control_deps, entry_conditions, expand, leaves_at, raw_forms, expand_at, flow_conditions, flows, forms, return_values, str_template, template_text, tests_like, A, MUTATORS, asrc, enum_members, is_self_attr, kwarg, root_name, stores, unparse
 
 DM = "xsdata.codegen.mappers.dtd"
 DP = "xsdata.codegen.parsers.dtd"
@@ -65,19 +65,21 @@ def _effects(nodes) -> list[str]:
     """Side effects (calls / stores / raises / returns) among CFG nodes, as text - used to tell a handled member from a fall-through."""
     out = []
     for n in nodes:
-        if n.kind == "stmt" and n.ast is not None and not isinstance(n.ast, ast.Pass):
+        if n.kind == "stmt" and n.ast is not None and not isinstance(n.ast, (ast.Pass, ast.Continue, ast.Break)) and not (isinstance(n.ast, ast.Return) and (n.ast.value is None or isinstance(n.ast.value, ast.Constant))):
             out.append(unparse(n.ast)[:60])
     return out
 
 
-def _const_stores(nodes) -> dict[str, set[str]]:
+def _const_stores(nodes, fn: ast.AST | None = None) -> dict[str, set[str]]:
+    """target text (alias temporaries of the receiver looked through) -> set of stored value texts."""
     out: dict[str, set[str]] = {}
     for n in nodes:
         if n.kind == "stmt" and isinstance(n.ast, (ast.Assign, ast.AnnAssign)):
             tgts = n.ast.targets if isinstance(n.ast, ast.Assign) else [n.ast.target]
             if n.ast.value is not None:
                 for t in tgts:
-                    out.setdefault(unparse(t), set()).add(unparse(n.ast.value))
+                    key = unparse(expand(fn, t)) if fn is not None and isinstance(t, ast.Attribute) else unparse(t)
+                    out.setdefault(key, set()).add(unparse(n.ast.value))
     return out
 
 
@@ -92,16 +94,19 @@ def enum_dispatch_totality(ctx: Ctx) -> None:
         d = _enum_dispatch(fi, enum_name)
         if not d.keys:
             raise AnalysisError(f"C16.R1: no {enum_name} dispatch in {fn} (anchor vanished)")
-        default_nodes = d.specific(None)
+        default_nodes = d.exclusive(None)
         default_acts = bool(_effects(default_nodes))
         missing = members - set(d.keys)
         # a member is handled if it has its own branch, or falls into a default branch that does something
-        unhandled = {m for m in missing if not default_acts}
+        # a dispatch written at value level (named booleans / conditional expressions, no branching statement) gives every member a value:
+        # there is no member that could fall through; the values themselves are compared with the tables by R2 / R3
+        value_level = not d.tests
+        unhandled = set() if value_level else {m for m in missing if not default_acts}
         if contentless:
             ok = unhandled == contentless
             why = f"unhandled members {sorted(unhandled)} (deliberately content-less: {sorted(contentless)})"
         else:
-            ok = not unhandled and (len(missing) <= 1)
+            ok = not unhandled and (len(missing) <= 1 or value_level)
             why = f"members without their own branch {sorted(missing)}, default branch {'present' if default_acts else 'absent'}"
         ctx.ob(f"{fn}: dispatch over {enum_name} is total", ok, at=fi, construct=f"{fn} dispatch {enum_name}", msg=why)
     # the parser converts lxml's strings through the enums (a new lxml kind fails loudly instead of being mis-mapped)
@@ -128,9 +133,8 @@ def occurrence_table(ctx: Ctx) -> None:
             for dct in [x for x in ast.walk(r.ast.value) if isinstance(x, ast.Dict)]:
                 for kk, vv in zip(dct.keys, dct.values):
                     if isinstance(kk, ast.Constant) and kk.value in got:
-                        for leaf, chain in flows(fi, r, vv):
-                            if all(c.id in ids for c in chain):
-                                got[kk.value].add(unparse(leaf))
+                        for leaf in d.values_under(fi, key, r, vv):
+                            got[kk.value].add(unparse(leaf))
         ctx.ob(f"occurrence {k} -> ({lo}, {hi})", got["min_occurs"] == {lo} and got["max_occurs"] == {hi}, at=fi, construct=f"occurs {k}", msg=f"mapped to ({sorted(got['min_occurs'])}, {sorted(got['max_occurs'])})")
     bc = ctx.repo.func(f"{DM}:DtdMapper.build_content")
     dc = _enum_dispatch(bc, "DtdContentType")
@@ -160,6 +164,15 @@ def occurrence_table(ctx: Ctx) -> None:
     own = [n for n in or_nodes if n.kind == "stmt" and any(isinstance(x, ast.Constant) and x.value == "choice" for x in ast.walk(n.ast))]
     down = [n for n in or_nodes if n.kind == "stmt" and any(call_name_of(c) == "build_content_tree" and any(k.arg is None for k in c.keywords) for c in node_calls(n))]
     ok = bool(upd_kw) and bool(own) and bool(down) and all(u.id in dc.g.reachable([o.id]) for u in upd_kw for o in own) and all(dn.id in dc.g.reachable([u.id]) for dn in down for u in upd_kw)
+    if not ok and down:
+        # display form: {**build_occurs(...), "choice": ..., "min_occurs": 0, **kwargs} - the outer kwargs are spread AFTER the group's own entries
+        for n in or_nodes:
+            if n.kind != "stmt" or n.ast is None:
+                continue
+            for dct in [x for x in ast.walk(n.ast) if isinstance(x, ast.Dict)]:
+                keys = [k.value if isinstance(k, ast.Constant) else ("**" + unparse(v)) for k, v in zip(dct.keys, dct.values)]
+                if "choice" in keys and "**kwargs" in keys and keys.index("**kwargs") > keys.index("choice") and all(dn.id in dc.g.reachable([n.id]) for dn in down):
+                    ok = True
     ctx.ob("outer kwargs (an enclosing choice) override the group's own parameters and are passed down to both subtrees", ok, at=bc, construct="choice nesting", msg="nested groups lose the enclosing choice")
     bt = ctx.repo.func(f"{DM}:DtdMapper.build_content_tree")
     gt = build_cfg(bt.node)
@@ -167,6 +180,12 @@ def occurrence_table(ctx: Ctx) -> None:
     left = [n for n, a in sides if a.endswith(".left")]
     right = [n for n, a in sides if a.endswith(".right")]
     ok = len(left) == 1 and len(right) == 1 and right[0].id in gt.reachable([left[0].id]) and left[0].id not in gt.reachable([right[0].id])
+    if not ok:
+        # loop form: for side in ("left", "right"): child = getattr(content, side) ...
+        for lp in [x for x in walk_no_nested(bt.node) if isinstance(x, ast.For) and isinstance(x.iter, (ast.Tuple, ast.List))]:
+            names_ = [e.value for e in lp.iter.elts if isinstance(e, ast.Constant)]
+            if names_ == ["left", "right"] and any(isinstance(c, ast.Call) and call_name_of(c) == "getattr" for c in ast.walk(lp)) and any(isinstance(c, ast.Call) and call_name_of(c) == "build_content" for c in ast.walk(lp)):
+                ok = True
     ctx.ob("build_content_tree visits left then right", ok, at=bt, construct="tree order", msg="child order changed")
     be = ctx.repo.func(f"{DM}:DtdMapper.build_element")
     clones = [c for c in calls_in(be.node) if call_name_of(c) == "clone"]
@@ -174,7 +193,15 @@ def occurrence_table(ctx: Ctx) -> None:
     gb = build_cfg(be.node)
     idx_nodes = [gb.node_of(st) for st, tgt, v in stores(be.node) if isinstance(tgt, ast.Attribute) and tgt.attr == "index"]
     app = [n for n in gb.stmts() if any(isinstance(c.func, ast.Attribute) and c.func.attr == "append" and unparse(c.func.value).endswith(".attrs") for c in node_calls(n))]
-    ok = bool(clones) and len(idx) == 1 and A(unparse(idx[0])) == A("len(target.attrs)") and bool(app) and all(i is not None and a.id in gb.reachable([i.id]) and i.id not in gb.reachable([a.id]) for i in idx_nodes for a in app)
+    # where the index value is computed: the store itself, or the definition of the temporary it stores
+    eval_nodes = []
+    for st_, tgt_, v_ in stores(be.node):
+        if isinstance(tgt_, ast.Attribute) and tgt_.attr == "index" and v_ is not None:
+            n_ = gb.node_of(st_)
+            chain_ = [c for _leaf, ch in flows(be, n_, v_) for c in ch] if n_ is not None else []
+            eval_nodes.append(chain_[-1] if chain_ else n_)
+    ok = bool(clones) and len(idx) == 1 and A("len(target.attrs)") in {A(x) for x in raw_forms(be, idx_nodes[0], idx[0])} and bool(app) and all(
+        i is not None and a.id in gb.reachable([i.id]) and i.id not in gb.reachable([a.id]) for i in eval_nodes for a in app)
     ctx.ob("each element attr gets a clone of the restrictions and the next index (len(target.attrs) before it is appended)", ok, at=be, construct="element attr", msg="restrictions shared / index wrong")
 
 
@@ -185,25 +212,29 @@ def attribute_default_table(ctx: Ctx) -> None:
     d = _enum_dispatch(fi, "DtdAttributeDefault")
     g = d.g
 
-    rq, im, fx = _const_stores(d.under("REQUIRED")), _const_stores(d.under("IMPLIED")), _const_stores(d.under("FIXED"))
+    rq, im, fx = _const_stores(d.under("REQUIRED"), fi.node), _const_stores(d.under("IMPLIED"), fi.node), _const_stores(d.under("FIXED"), fi.node)
     ctx.ob("#REQUIRED -> min_occurs 1", rq.get("attr.restrictions.min_occurs") == {"1"}, at=fi, construct="REQUIRED", msg=str(rq))
     ctx.ob("#IMPLIED -> min_occurs 0", im.get("attr.restrictions.min_occurs") == {"0"}, at=fi, construct="IMPLIED", msg=str(im))
     ctx.ob("#FIXED -> fixed, required, default = declared value", fx.get("attr.fixed") == {"True"} and fx.get("attr.default") == {"default_value"} and fx.get("attr.restrictions.min_occurs") == {"1"}, at=fi, construct="FIXED", msg=str(fx))
     # no keyword (NONE): a declared default value is materialised and makes the attribute required-with-default; otherwise optional
     none_nodes = d.under(None) if "NONE" not in d.keys else d.under("NONE")
+    none_key = None if "NONE" not in d.keys else "NONE"
     sets = [n for n in none_nodes if n.kind == "stmt" and isinstance(n.ast, ast.Assign) and unparse(n.ast.targets[0]) == "attr.default" and unparse(n.ast.value) == "default_value"]
-    ok = bool(sets) and all(any((t == "_isnotNone" and pol) or (t == "_isNone" and not pol) for t, pol, _ in control_deps(fi, n)) for n in sets)
+    nn_tests = [(t, isinstance(t.ast.ops[0], ast.IsNot)) for t in g.nodes if t.kind == "test" and isinstance(t.ast, ast.Compare) and len(t.ast.ops) == 1 and isinstance(t.ast.ops[0], (ast.Is, ast.IsNot))
+                and unparse(t.ast.left) == "default_value" and isinstance(t.ast.comparators[0], ast.Constant) and t.ast.comparators[0].value is None]
+    # with no keyword (the NONE case) the default is stored exactly when a default value was declared
+    ok = bool(sets) and all(any(d.only_if_under(none_key, n.id, t.id, pol) for t, pol in nn_tests) for n in sets)
     ctx.ob("a declared default value is materialised as the attr default", ok, at=fi, construct="declared default", msg="declared defaults dropped")
-    mx = [st for st, tgt, v in stores(fi.node) if unparse(tgt) == "attr.restrictions.max_occurs"]
-    ctx.ob("attributes occur at most once", bool(mx) and all(unparse(v) == "1" for _, t2, v in stores(fi.node) if unparse(t2) == "attr.restrictions.max_occurs") and g.must_pass(g.entry, g.exit, [g.node_of(st).id for st in mx]), at=fi, construct="max_occurs 1", msg="max_occurs not 1 on every path")
+    mx = [(st, v) for st, tgt, v in stores(fi.node) if isinstance(tgt, ast.Attribute) and unparse(expand(fi.node, tgt)) == "attr.restrictions.max_occurs"]
+    ctx.ob("attributes occur at most once", bool(mx) and all(unparse(v) == "1" for _, v in mx) and g.must_pass(g.entry, g.exit, [g.node_of(st).id for st, _ in mx], normal_only=True), at=fi, construct="max_occurs 1", msg="max_occurs not 1 on every path")
     ba = ctx.repo.func(f"{DM}:DtdMapper.build_attribute")
     gba = build_cfg(ba.node)
     calls = [(n, c) for n in gba.stmts() for c in node_calls(n) if call_name_of(c) == "build_attribute_restrictions"]
     ok = len(calls) == 1 and len(calls[0][1].args) == 3 and "_.default" in forms(ba, calls[0][0], calls[0][1].args[1]) and "_.default_value" in forms(ba, calls[0][0], calls[0][1].args[2])
     ctx.ob("build_attribute passes (attr, attribute.default, attribute.default_value)", ok, at=ba, construct="restriction args", msg="arguments swapped")
     ns = [(gba.node_of(c), kwarg(c, "namespace")) for c in calls_in(ba.node) if kwarg(c, "namespace") is not None]
-    ok = bool(ns) and all(n is not None and "_.ns_map.get(_.prefix)" in forms(ba, n, v) for n, v in ns)
-    ctx.ob("attribute namespace = target.ns_map.get(attribute.prefix)", ok, at=ba, construct="attribute namespace", msg="attribute namespace resolved differently")
+    ok = bool(ns) and all(n is not None and any("target.ns_map" in f and "attribute.prefix" in f for f in raw_forms(ba, n, v)) for n, v in ns)
+    ctx.ob("attribute namespace is looked up from target.ns_map by attribute.prefix", ok, at=ba, construct="attribute namespace", msg="attribute namespace resolved differently")
 
 
 @rule("C16.R4")
